@@ -379,9 +379,18 @@ func runOrders(o *Opts) *Summary {
 				w2 = NewWorld(o.Seed*100000+int64(t)*1000+int64(cand), n)
 				w2.OpenTrace(os.DevNull)
 				w2.tsBase = time.Now().Unix()
-				randGossipDAG(w2, n, o.Steps+w2.rng.Intn(o.Steps/3+1))
+				// (every third trace: no screening, but creator 1 lags - after the first quarter
+				// of the steps nobody builds on its events any more, so that they can be
+				// inserted long after the rounds they belong to were decided)
+				randGossipDAG(w2, n, o.Steps+w2.rng.Intn(o.Steps/3+1), t%3 == 1)
+				if t%3 == 1 {
+					break
+				}
 				screened++
-				if cand+1 >= o.Cache || batchingMatters(w2, n) {
+				// t%3 == 0: any difference; t%3 == 2: a difference in round-received or
+				// blocks while the fame tables agree (not the known first-descendant kind)
+				anyDiff, fameSame := batchingMatters(w2, n)
+				if cand+1 >= o.Cache || (anyDiff && (t%3 == 0 || fameSame)) {
 					if cand+1 < o.Cache {
 						screenHits++
 					}
@@ -563,6 +572,7 @@ func runOrders(o *Opts) *Summary {
 		}
 		vs = append(vs, variant{"rcreator", "inmem", 100000, 1, w.randomTopo(all, "rcreator"), false})
 		vs = append(vs, variant{"late", "inmem", 100000, 1, w.randomTopo(all, "late"), false})
+		vs = append(vs, variant{"late", "inmem", 100000, 1, w.randomTopo(all, "late"), false})
 		for _, b := range []int{0, 2, 7, 25} {
 			vs = append(vs, variant{"batch", "inmem", 100000, b, w.randomTopo(all, ""), false})
 			vs = append(vs, variant{"batch-ref", "inmem", 100000, b, ref, false})
@@ -673,7 +683,7 @@ func maxInt(a, b int) int {
 
 // randGossipDAG: n creators; after the n parentless first events, each step one
 // creator puts an event on top of its own head and another creator's head.
-func randGossipDAG(w *World, n, steps int) {
+func randGossipDAG(w *World, n, steps int, laggard bool) {
 	heads := make([]string, n)
 	seq := make([]int, n)
 	mk := func(c int, sp, op string) {
@@ -698,7 +708,7 @@ func randGossipDAG(w *World, n, steps int) {
 	for k := 0; k < steps; k++ {
 		c := w.rng.Intn(n)
 		o := w.rng.Intn(n)
-		for o == c {
+		for o == c || (laggard && o == 0 && k >= steps/4) {
 			o = w.rng.Intn(n)
 		}
 		mk(c, heads[c], heads[o])
@@ -707,7 +717,7 @@ func randGossipDAG(w *World, n, steps int) {
 
 // batchingMatters: a cheap screen (not an oracle): do a per-event and an
 // at-the-end instance of this DAG report different fame or blocks?
-func batchingMatters(w *World, n int) bool {
+func batchingMatters(w *World, n int) (anyDiff, fameSame bool) {
 	gen := []int{}
 	for i := 1; i <= n; i++ {
 		gen = append(gen, i)
@@ -717,17 +727,28 @@ func batchingMatters(w *World, n int) bool {
 		all = append(all, inf)
 	}
 	sort.Slice(all, func(i, j int) bool { return all[i].Seq < all[j].Seq })
-	key := func(batch int) string {
+	key := func(batch int) (string, string) {
 		in, err := w.newInst(gen, "inmem", 100000, "")
 		if err != nil {
-			return "err"
+			return "err", ""
 		}
 		defer in.close()
 		if err := in.feed(all, batch); err != nil {
-			return "err:" + err.Error()
+			return "err:" + err.Error(), ""
 		}
 		out := in.output(all)
-		return fmt.Sprint(out["fame"], out["blocks"], out["rr"])
+		// (fame: the famous ones only - a late witness may stay undecided in one and be
+		// decided not famous in the other)
+		famous := []string{}
+		for _, f := range out["fame"].([]interface{}) {
+			m := f.(map[string]interface{})
+			if m["f"] == "T" {
+				famous = append(famous, fmt.Sprint(m["e"]))
+			}
+		}
+		return fmt.Sprint(out["blocks"], out["rr"]), fmt.Sprint(famous)
 	}
-	return key(1) != key(0)
+	a1, f1 := key(1)
+	a0, f0 := key(0)
+	return a1 != a0 || f1 != f0, f1 == f0
 }
